@@ -785,7 +785,9 @@ def _dt_plus_duration_ok(prog, rep, rule):
     rets = [n for n in walk_own(fi.node) if isinstance(n, ast.Return)]
     shape = False
     if len(rets) == 1 and isinstance(rets[0].value, ast.Call) and len(rets[0].value.args) == 3:
-        mid = rets[0].value.args[1]
+        from .trace import deep as _deep
+
+        mid = _deep(rets[0].value.args[1], fi)
         p0, p1 = fi.params[0], fi.params[1]
         # (julianday(dt) - 2440587.5) * 86400.0 + duration
         if isinstance(mid, ast.BinOp) and isinstance(mid.op, ast.Add):
